@@ -211,9 +211,12 @@ def sp_variants_float(extra):
 
 
 def enumerate_contexts(thorough=False):
-    """List of descriptors.  Small parameters, every mode, overflow mode, NaN/inf option, substitute value."""
+    """List of descriptors.  Small parameters, every mode, overflow mode, NaN/inf option, substitute value.
+    The quick tier keeps every family, mode, overflow mode and option but crosses fewer of them."""
     out = []
     modes = RM
+    some_modes = RM if thorough else ['RNE', 'RTZ', 'RTP', 'RTO']
+    few_modes = RM if thorough else ['RNE', 'RTZ', 'RTN']
 
     def add(d):
         out.append(d)
@@ -223,7 +226,7 @@ def enumerate_contexts(thorough=False):
         for rm in modes:
             add({'kind': 'mpfloat', 'p': p, 'rm': rm})
     for sp in sp_variants_float([fin(0, 0, 1), fin(1, -1, 3), fin(0, 0, 0), fin(1, 0, 0)]):
-        for rm in ('RNE', 'RTZ'):
+        for rm in (('RNE', 'RTZ') if thorough else ('RNE',)):
             add(dict({'kind': 'mpfloat', 'p': 2, 'rm': rm}, **sp))
     # --- MPSFloat
     for p, emin in ([(1, 0), (2, -1), (3, -2)] if not thorough else [(p, em) for p in (1, 2, 3, 4) for em in (-2, 0, 1)]):
@@ -236,19 +239,20 @@ def enumerate_contexts(thorough=False):
     for p, emin in ([(2, -1), (3, 0)] if not thorough else [(1, 0), (2, -1), (3, 0), (3, -2), (4, 0)]):
         top = emin + 2
         for c in range(2 ** (p - 1), 2 ** p):
-            mpb.append((p, emin, (False, top - p + 1, c), None))
-        mpb.append((p, emin, (False, top - p + 1, 2 ** p - 1), (True, top - p, 2 ** p - 1)))   # asymmetric
-        mpb.append((p, emin, (False, top, 1), None))                                         # bound written unnormalised
-        mpb.append((p, emin, (False, emin - p + 1, 1), None))                               # bound = smallest subnormal
-    for (p, emin, mv, nmv) in mpb:
-        for rm in modes:
+            mpb.append((p, emin, (False, top - p + 1, c), None, c == 2 ** p - 1))
+        mpb.append((p, emin, (False, top - p + 1, 2 ** p - 1), (True, top - p, 2 ** p - 1), True))   # asymmetric
+        mpb.append((p, emin, (False, top, 1), None, p == 3))                                   # bound written unnormalised
+        mpb.append((p, emin, (False, emin - p + 1, 1), None, p == 3))                         # bound = smallest subnormal
+    for (p, emin, mv, nmv, full) in mpb:
+        for rm in (modes if full or thorough else few_modes):
             for ov in ('OVERFLOW', 'SATURATE', 'ASSERT'):
                 add({'kind': 'mpbfloat', 'p': p, 'emin': emin, 'maxval': mv, 'neg_maxval': nmv, 'rm': rm, 'ov': ov})
-        for sp in sp_variants_float([fin(0, mv[1], mv[2]), fin(0, 0, 0), fin(1, 0, 0)]):
-            for rm in ('RNE', 'RTP', 'RTZ'):
-                if sp and (rm == 'RNE' or thorough or mv[2] == 2 ** p - 1):
-                    add(dict({'kind': 'mpbfloat', 'p': p, 'emin': emin, 'maxval': mv, 'neg_maxval': nmv, 'rm': rm,
-                              'ov': 'OVERFLOW'}, **sp))
+        if mv[2] == 2 ** p - 1 and nmv is None or thorough:
+            for sp in sp_variants_float([fin(0, mv[1], mv[2]), fin(0, 0, 0), fin(1, 0, 0)]):
+                for rm in (('RNE', 'RTP', 'RTZ') if thorough else ('RNE', 'RTZ')):
+                    if sp:
+                        add(dict({'kind': 'mpbfloat', 'p': p, 'emin': emin, 'maxval': mv, 'neg_maxval': nmv, 'rm': rm,
+                                  'ov': 'OVERFLOW'}, **sp))
     # --- EFloat / IEEE
     nb_max = 4 if not thorough else 5
     for nbits in range(1, nb_max + 1):
@@ -258,19 +262,17 @@ def enumerate_contexts(thorough=False):
                 continue
             for einf in (True, False):
                 for nk in ('IEEE_754', 'MAX_VAL', 'NEG_ZERO', 'NONE'):
-                    for eoff in ((0, 2) if nbits <= 3 else (0, -1)):
-                        for rm in modes:
-                            for ov in (('OVERFLOW', 'SATURATE') if rm in ('RNE', 'RTN', 'RTZ') else ('OVERFLOW',)):
-                                if nbits == nb_max and not thorough and rm not in ('RNE', 'RTZ', 'RTP', 'RTO'):
-                                    continue
+                    for eoff in ((0, 2) if nbits <= (2 if not thorough else 3) else (0, -1) if thorough else (0,)):
+                        for rm in (modes if (nbits < nb_max and eoff == 0) or thorough else some_modes if eoff == 0 else ('RNE', 'RTZ')):
+                            for ov in (('OVERFLOW', 'SATURATE') if rm in ('RNE', 'RTZ') or thorough and rm == 'RTN' else ('OVERFLOW',)):
                                 add({'kind': 'efloat', 'es': es, 'nbits': nbits, 'enable_inf': einf, 'nk': nk, 'eoffset': eoff,
                                      'rm': rm, 'ov': ov})
                         for nv, iv in [(fin(0, 0, 0), fin(0, 0, 0)), (None, fin(1, 0, 1)), (fin(0, 0, 1), None)]:
-                            if eoff == 0:
+                            if eoff == 0 and (thorough or (nbits >= 3 and nk in ('IEEE_754', 'NONE'))):
                                 add({'kind': 'efloat', 'es': es, 'nbits': nbits, 'enable_inf': einf, 'nk': nk, 'eoffset': eoff,
                                      'rm': 'RNE', 'ov': 'OVERFLOW', 'nan_value': nv, 'inf_value': iv})
     for es, nbits in ((2, 4), (2, 5), (3, 5)):
-        for rm in modes:
+        for rm in (modes if nbits == 4 or thorough else some_modes):
             for ov in ('OVERFLOW', 'SATURATE'):
                 add({'kind': 'ieee', 'es': es, 'nbits': nbits, 'rm': rm, 'ov': ov})
     # --- MPFixed
@@ -279,6 +281,8 @@ def enumerate_contexts(thorough=False):
             add({'kind': 'mpfixed', 'nmin': nmin, 'rm': rm})
             add({'kind': 'mpfixed', 'nmin': nmin, 'rm': rm, 'neg_zero': False, 'enable_nan': True, 'enable_inf': True})
         subs = [None, fin(0, nmin + 1, 3), fin(0, 0, 0), fin(1, 0, 0), ('inf', True), ('nan', True)]
+        if nmin != -2 and not thorough:
+            subs = [None, fin(0, nmin + 1, 3), ('inf', True)]
         for en, ei, nz in itertools.product((True, False), (True, False), (True, False)):
             for nv, iv in itertools.product(subs, subs):
                 if not thorough and nv is not None and iv is not None and nv != iv:
@@ -288,44 +292,44 @@ def enumerate_contexts(thorough=False):
     # --- MPBFixed
     for nmin in (-2, 0):
         lsb = nmin + 1
-        bounds = [((False, lsb, 5), None), ((False, lsb, 6), (True, lsb, 3)), ((False, lsb, 3), (False, 0, 0)),
-                  ((False, lsb, 3), (True, 0, 0)), ((False, lsb, 3), None), ((False, lsb + 1, 1), None),
-                  ((False, 0, 0), None)]
-        for mv, nmv in bounds:
-            for rm in modes:
+        bounds = [((False, lsb, 5), None, True), ((False, lsb, 6), (True, lsb, 3), False), ((False, lsb, 3), (False, 0, 0), True),
+                  ((False, lsb, 3), (True, 0, 0), False), ((False, lsb, 3), None, True), ((False, lsb + 1, 1), None, False),
+                  ((False, 0, 0), None, False)]
+        for mv, nmv, full in bounds:
+            for rm in (modes if full or thorough else few_modes):
                 for ov in ('OVERFLOW', 'SATURATE', 'WRAP', 'ASSERT'):
                     for nz in (True, False):
                         if not thorough and nz is False and rm not in ('RNE', 'RTZ', 'RTN'):
                             continue
                         add({'kind': 'mpbfixed', 'nmin': nmin, 'maxval': mv, 'neg_maxval': nmv, 'rm': rm, 'ov': ov, 'neg_zero': nz})
+            if not thorough and not (nmin == -2 and mv[2] == 3 and (nmv is None or nmv == (False, 0, 0))):
+                continue
             subs = [None, fin(0, lsb, 2), fin(0, 0, 0), fin(1, 0, 0), ('inf', False), ('nan', False)]
             for en, ei in itertools.product((True, False), (True, False)):
                 for nv, iv in itertools.product(subs, subs):
                     if not thorough and nv is not None and iv is not None and nv != iv:
                         continue
                     for rm, ov in (('RNE', 'OVERFLOW'), ('RTZ', 'OVERFLOW'), ('RTP', 'OVERFLOW'), ('RNE', 'SATURATE')):
-                        if not thorough and (rm, ov) != ('RNE', 'OVERFLOW') and mv[2] != 3:
+                        if not thorough and (rm, ov) not in (('RNE', 'OVERFLOW'), ('RTZ', 'OVERFLOW')):
                             continue
                         add({'kind': 'mpbfixed', 'nmin': nmin, 'maxval': mv, 'neg_maxval': nmv, 'rm': rm, 'ov': ov,
                              'enable_nan': en, 'enable_inf': ei, 'nan_value': nv, 'inf_value': iv})
     # --- Fixed / SMFixed
     for signed in (True, False):
-        for nbits in ((2, 3) if not thorough else (1, 2, 3, 4)):
-            for scale in (-1, 0, 2):
-                for rm in modes:
-                    for ov in ('WRAP', 'SATURATE', 'OVERFLOW', 'ASSERT'):
-                        add({'kind': 'fixed', 'signed': signed, 'scale': scale, 'nbits': nbits, 'rm': rm, 'ov': ov})
-                for nv, iv in [(fin(0, scale, 1), fin(0, scale, 1)), (fin(0, 0, 0), None), (None, fin(1, scale, 1)), (('nan', False), ('inf', False))]:
-                    for ov in ('SATURATE', 'OVERFLOW'):
-                        add({'kind': 'fixed', 'signed': signed, 'scale': scale, 'nbits': nbits, 'rm': 'RNE', 'ov': ov,
-                             'nan_value': nv, 'inf_value': iv})
-    for nbits in ((2, 3, 4) if not thorough else (2, 3, 4, 5, 7)):
-        for scale in (-1, 0, 1):
+        for nbits, scale in ([(2, 0), (3, -1), (3, 2)] if not thorough else [(n, s_) for n in (1, 2, 3, 4) for s_ in (-1, 0, 2)]):
             for rm in modes:
                 for ov in ('WRAP', 'SATURATE', 'OVERFLOW', 'ASSERT'):
-                    add({'kind': 'smfixed', 'scale': scale, 'nbits': nbits, 'rm': rm, 'ov': ov})
-            for nv, iv in [(fin(0, scale, 1), fin(1, scale, 1)), (fin(0, 0, 0), fin(0, 0, 0))]:
-                add({'kind': 'smfixed', 'scale': scale, 'nbits': nbits, 'rm': 'RNE', 'ov': 'OVERFLOW', 'nan_value': nv, 'inf_value': iv})
+                    add({'kind': 'fixed', 'signed': signed, 'scale': scale, 'nbits': nbits, 'rm': rm, 'ov': ov})
+            for nv, iv in [(fin(0, scale, 1), fin(0, scale, 1)), (fin(0, 0, 0), None), (None, fin(1, scale, 1)), (('nan', False), ('inf', False))]:
+                for ov in ('SATURATE', 'OVERFLOW'):
+                    add({'kind': 'fixed', 'signed': signed, 'scale': scale, 'nbits': nbits, 'rm': 'RNE', 'ov': ov,
+                         'nan_value': nv, 'inf_value': iv})
+    for nbits, scale in ([(2, 0), (3, -1), (3, 1), (4, 0)] if not thorough else [(n, s_) for n in (2, 3, 4, 5, 7) for s_ in (-1, 0, 1)]):
+        for rm in modes:
+            for ov in ('WRAP', 'SATURATE', 'OVERFLOW', 'ASSERT'):
+                add({'kind': 'smfixed', 'scale': scale, 'nbits': nbits, 'rm': rm, 'ov': ov})
+        for nv, iv in [(fin(0, scale, 1), fin(1, scale, 1)), (fin(0, 0, 0), fin(0, 0, 0))]:
+            add({'kind': 'smfixed', 'scale': scale, 'nbits': nbits, 'rm': 'RNE', 'ov': 'OVERFLOW', 'nan_value': nv, 'inf_value': iv})
     # --- families no lowering applies to (refusal only), and stochastic contexts
     for rm in ('RNE', 'RTZ'):
         add({'kind': 'exp', 'nbits': 3, 'eoffset': 0, 'rm': rm, 'ov': 'OVERFLOW'})
@@ -468,6 +472,9 @@ def desc_of_ctx(c):
     if n == 'SMFixedContext':
         return dict(base, kind='smfixed', scale=c.scale, nbits=c.nbits, ov=c.overflow.name,
                     nan_value=tup_of_float(c.nan_value), inf_value=tup_of_float(c.inf_value))
+    if n == 'ExpContext':
+        return dict(kind='exp', nbits=c.nbits, eoffset=c.eoffset, rm=c.rm.name, ov=c.overflow.name,
+                    inf_value=tup_of_float(c.inf_value))
     if n in ('EFloatContext', 'IEEEContext'):
         return dict(base, kind='efloat', es=c.es, nbits=c.nbits, enable_inf=c.enable_inf, nk=c.nan_kind.name,
                     eoffset=c.eoffset, ov=c.overflow.name, nan_value=tup_of_float(c.nan_value), inf_value=tup_of_float(c.inf_value))
